@@ -35,7 +35,8 @@ class RerunScenario(cmdscn.CmdScenario):
             return
         pre_w = {w['id']: w['state'] for w in pre['workflow_executions_v2']}
         pre_t = {t['id']: t['state'] for t in pre['task_executions_v2']}
-        hit = any(pre_w.get(w['id']) == 'RUNNING' and w['state'] == 'ERROR'
+        hit = any(pre_w.get(w['id']) in ('RUNNING', 'PAUSED') and
+                  w['state'] == 'ERROR'
                   for w in post['workflow_executions_v2'])
         hit = hit or any(pre_t.get(t['id']) == 'WAITING' and
                          t['state'] == 'ERROR'
@@ -140,6 +141,11 @@ class RerunScenario(cmdscn.CmdScenario):
         return cache[ck]
 
     def check_terminal(self, snap, ctx):
+        if any(w['state'] == 'PAUSED'
+               for w in snap['workflow_executions_v2']):
+            # paused by the operator and not resumed in this run
+            return json.dumps(wfscn.outcome_of(snap, with_ctx=False),
+                              sort_keys=True, default=str), []
         key, v = wfscn.WfScenario.check_terminal(self, snap, ctx)
         ms = self.models_for_history()
         m = ms[0]
@@ -313,6 +319,22 @@ def scenarios(tier):
                             if d.get('key', t) == fk])
                     jobs.append((scn, 0 if quick else 1,
                                  40 if quick else 1200, 1))
+    # the re-executed task finishes while the workflow is paused: rerun,
+    # then pause at every later point, then resume
+    P = programs()
+    for pname in ('seq3', 'fork2'):
+        prog = P[pname]
+        keys = wfgen.action_keys(prog)
+        for fk in keys[:2]:
+            res = {k: ['S'] for k in keys}
+            res[fk] = ['E', 'S']
+            scn = RerunScenario(
+                '%s/rerun_pause_resume/%s=ES' % (pname, fk), prog,
+                results=res, menu=['rerun', 'pause', 'resume'], max_cmds=3,
+                sequences=[['rerun', 'pause', 'resume']],
+                only_tasks=[t for t, d in prog['tasks'].items()
+                            if d.get('key', t) == fk])
+            jobs.append((scn, 0 if quick else 1, 60 if quick else 1200, 1))
     # reruns inside the sub-workflows of a with-items task, several in flight
     prog = make_prog(2, None, sub=True)
     prog['tasks']['a'].pop('on-complete')
